@@ -410,6 +410,11 @@ func Family(prop, tier string) ([]Scenario, error) {
 		out = append(out, Core(2, n12, []bool{false}, []string{OK, Err, Goexit}, -1)...)
 		out = append(out, Core(3, n12, []bool{false}, okerr, -1)...)
 		out = append(out, shapes([][][]int{Indep4, Diamond4, FanIn4}, []int{2}, []bool{false}, okerr, 1)...)
+		for _, s := range dupDeps(n12) {
+			if !s.COE {
+				out = append(out, s)
+			}
+		}
 		for _, s := range cancelFamily(2, n12, th) {
 			if !s.COE {
 				out = append(out, s)
@@ -445,6 +450,11 @@ func Family(prop, tier string) ([]Scenario, error) {
 		out = append(out, Core(2, n12, []bool{true}, []string{OK, Err, Goexit}, -1)...)
 		out = append(out, Core(3, n12, []bool{true}, okerr, -1)...)
 		out = append(out, shapes([][][]int{Indep4, Diamond4, FanOut4}, []int{2}, []bool{true}, okerr, 1)...)
+		for _, s := range dupDeps(n12) {
+			if s.COE {
+				out = append(out, s)
+			}
+		}
 		for _, s := range cancelFamily(2, n12, th) {
 			if s.COE {
 				out = append(out, s)
